@@ -8,6 +8,7 @@ import props_keys
 import props_panic
 import props_sibling
 import props_values
+import witness
 
 COMMON_ASSUMPTIONS = [
     "rustc's type checker / MIR construction and the fact extractor's serialisation are trusted",
@@ -75,12 +76,12 @@ PROPS = {
                 explanation="close() decided structurally: every public operation tests is_closed before its first effect and returns the neutral value when closed, close() must pass through "
                             "stop signal + policy.close() + flag, worker loops return on their stop arm for message and disconnect alike and own no sender, no public operation unwraps a "
                             "Result whose Err is constructible (interprocedural may-Err analysis)."),
-    "C18": dict(fn=props_keys.check_C18, floor={"sync": 40, "async": 40},
+    "C18": dict(fn=props_keys.check_C18, floor={"sync": 40, "async": 40}, once_thorough=lambda rep: witness.check_witnesses(rep, "R18.1/K11"),
                 explanation="Key identity decided structurally: every TransparentHasher::write_* stores `i as u64`, finish returns it, TransparentKeyBuilder hashes through a fresh "
                             "identity hasher with conflict 0, build_key = (hash_index, hash_conflict); key hashing is pure (no clock / RNG / global / self mutation, seed drawn once, builder "
                             "never written after finalize); the conflict test guards all five store accessors; every cache operation passes index and conflict of one build_key call; "
                             "charge isolation of colliding keys = R06.2 (known finding F10)."),
-    "C02": dict(fn=props_keys.check_C02, floor={"sync": 50, "async": 50},
+    "C02": dict(fn=props_keys.check_C02, floor={"sync": 50, "async": 50}, once_thorough=lambda rep: witness.check_witnesses(rep, "R02.3/K11"),
                 explanation="Same-key lookups decided structurally: one shard selector in all accessors, a reference is handed out only for the looked-up key past the conflict and expiry "
                             "guards and borrows from that item under the guard moved into it, resident values are written only by store.try_update (after conflict + validator) and "
                             "through ValueRefMut, the swapped-out value goes to on_exit only, every insert runs the in-place update before returning, remove deletes before returning and "
@@ -97,7 +98,7 @@ PROPS = {
                             "and no unexpected user callback under a lock.",
                 assumptions=["overflow checks (debug builds only) on cost / counter arithmetic are not counted as panic sites: costs are user data outside the configuration space of C20",
                              "the system clock does not step backwards (Time::elapsed / unix unwrap a SystemTimeError)"]),
-    "C08": dict(fn=props_values.check_C08, floor={"sync": 40, "async": 40},
+    "C08": dict(fn=props_values.check_C08, floor={"sync": 40, "async": 40}, once_thorough=lambda rep: witness.check_witnesses(rep, "R08.3/K11"),
                 explanation="Value conservation decided structurally: (R08.1) move analysis on mir_built of every repository body: each implicit drop of a value-bearing local (V, Option<V>, "
                             "StoreItem<V>, Item<V>, UpdateResult<V>, send errors, ...) that is live on some path is enumerated and must be one of the audited `insert -> false` / remnant cases; "
                             "(R08.2) routing table: the closed list of callers of on_exit / on_evict / on_reject with the provenance of the value each hands over; (R08.3) no duplication or leak "
